@@ -40,8 +40,20 @@ def rule_frames(prog):
         fname = fpath.rsplit("/", 1)[-1]
         if fname == "mod.rs" and fpath.count("/") >= 1:
             fname = fpath.rsplit("/", 2)[-2] + ".rs"
+        # a sink that pass 1 decided as a violation (both frames known) but pass 2 cannot decide any more, because the function's own
+        # first-pass result became unknown through that very inconsistency (a recursive walker that forgets one `.shift`), keeps
+        # the first-pass verdict
+        s1 = I.summaries.get(b["p"])
+        first_bad = {}
+        if s1 is not None and getattr(s1, "conv", "A") == "A":
+            for sk in s1.sinks:
+                if sk.ok is False and sk.kind != "conv":
+                    first_bad[(sk.kind, tuple(sk.sp) if isinstance(sk.sp, list) else sk.sp)] = sk
         for sk in s.sinks:
             if sk.kind == "conv":
                 continue
+            key_ = (sk.kind, tuple(sk.sp) if isinstance(sk.sp, list) else sk.sp)
+            if sk.ok is None and key_ in first_bad:
+                sk = first_bad[key_]
             out.add(b["d"], "%s %s" % (sk.kind, sk.what), sk.ok, c.loc(sk.sp), sk.msg, (sk.kind, fname, "path:" + fpath))
     return out
